@@ -63,7 +63,7 @@ class TlcResult:
 
 
 def run_tlc(work, module, cfg, env=None, workers=None, timeout=900, simulate=None,
-            seed=None, depth_first=False, cases_to=None, xmx="12g"):
+            seed=None, depth_first=False, cases_to=None, xmx="12g", coverage=True):
     """Run TLC on spec/<module>.tla with spec/<cfg>.  CASE lines are streamed to the
     file cases_to (one JSON document per line) if given, else collected."""
     os.makedirs(work, exist_ok=True)
@@ -75,8 +75,12 @@ def run_tlc(work, module, cfg, env=None, workers=None, timeout=900, simulate=Non
     if depth_first:
         jopts.append("-Dtlc2.tool.queue.IStateQueue=StateDeque")
     cmd = ["timeout", str(timeout), "java"] + jopts + ["-cp", TLA_CP, "tlc2.TLC",
-           "-workers", str(workers or WORKERS), "-coverage", "1", "-metadir", meta,
+           "-workers", str(workers or WORKERS), "-metadir", meta,
            "-cleanup", "-noGenerateSpecTE", "-config", cfg]
+    if coverage:
+        # per-action counts; not for trace validation (with -coverage TLC re-reads the trace
+        # constant instead of caching it and runs out of memory)
+        cmd += ["-coverage", "1"]
     if seed is not None:
         cmd += ["-seed", str(seed)]
     if simulate:
@@ -235,7 +239,7 @@ class Ctx:
 
     # ---- implementation -> spec ------------------------------------------------------
     def record_validate(self, driver, n, module, cfg, name=None, timeout=1800, args=None,
-                        sequential=False, **kw):
+                        sequential=False, devs=None, base_tag="base", **kw):
         """The harness drives the real code with seeded generated inputs and records one
         ndjson event per call; TLC re-evaluates the specification along the trace."""
         name = name or driver
@@ -251,7 +255,7 @@ class Ctx:
         log("[%s] recorded %d events with driver %s (%.1fs); TLC validates with %s"
             % (self.pid, summ["records"], driver, time.time() - t0, module))
         r = run_tlc(self.work, module, cfg, env={"TRACE": trace}, timeout=timeout,
-                    depth_first=sequential, **kw)
+                    depth_first=sequential, coverage=False, **kw)
         recs = None
         if r.error or r.rc != 0:
             if r.error and "Deadlock" in r.error:
@@ -263,12 +267,25 @@ class Ctx:
             else:
                 sys.stderr.write(r.stdout + "\n")
                 raise ToolFailure("TLC failed validating trace %s with %s: %s" % (trace, module, r.error))
+        bytag = {}
         for body in r.mismatches:
             parts = json.loads("[" + body + "]")
             k, tag = parts[0], (parts[1] if len(parts) > 1 else "")
+            bytag.setdefault(k, set()).add(tag)
+        for k, tags in sorted(bytag.items()):
             if recs is None:
                 recs = [json.loads(l) for l in open(trace)]
-            self.add_mismatch({"case": recs[k - 1], "tag": tag, "record": k,
+            if devs:
+                # sequential traces are run under the property's model (base) and under every
+                # named deviation; a history is judged by which of them reject it
+                if base_tag not in tags:
+                    continue            # accepted by the property's model
+                accepted_by = [fid for t, fid in devs.items() if t not in tags]
+                tag = accepted_by[0] if accepted_by else ""
+            else:
+                tag = sorted(tags)[0]
+                tag = "" if tag == "bad" else tag
+            self.add_mismatch({"case": recs[k - 1] if k else None, "tag": tag, "record": k,
                                "what": "recorded outcome differs from the specification"},
                               "trace:" + name)
         self.states += r.distinct
@@ -280,11 +297,11 @@ class Ctx:
             self.samples.extend(summ["samples"][:2])
         st = {"stage": "impl->spec trace validation", "driver": driver, "module": module,
               "records": summ["records"], "evaluations": summ["evaluations"],
-              "nontrivial": summ["nontrivial"], "mismatches": len(r.mismatches),
+              "nontrivial": summ["nontrivial"], "mismatches": len(bytag),
               "distinct_states": r.distinct, "wall_s": round(time.time() - t0, 1)}
         self.stages.append(st)
         log("[%s]   %d records validated, %d mismatches, %.1fs"
-            % (self.pid, summ["records"], len(r.mismatches), r.wall))
+            % (self.pid, summ["records"], len(bytag), r.wall))
         return st
 
     # ---- classification ---------------------------------------------------------------
